@@ -524,8 +524,9 @@ func (c *Ctx) ringDiscipline(info *types.Info) {
 					return true
 				}
 				nIdx++
-				good := isModLen(x.Index)
-				if s, ok := x.Index.(*ast.SelectorExpr); ok && (s.Sel.Name == ringF.begin || s.Sel.Name == ringF.end) {
+				index := ast.Unparen(resolveLocals(info, fi.Decl.Body, x.Index)) // a local holding begin/end
+				good := isModLen(index)
+				if s, ok := index.(*ast.SelectorExpr); ok && (s.Sel.Name == ringF.begin || s.Sel.Name == ringF.end) {
 					good = true
 				}
 				run.Oblige(good)
@@ -545,6 +546,8 @@ func (c *Ctx) ringDiscipline(info *types.Info) {
 							good = true
 						}
 					}
+					// the emptiness flag recomputed from the indices is not an index update
+					_ = good
 					if v, ok := constInt(info, x.Rhs[i]); ok && v == 0 {
 						good = true
 					}
